@@ -26,12 +26,16 @@ abbrev Server := Nat → Nat → Bytes
 def fileServer (file : Bytes) : Server := fun off limit => (file.drop off).take limit
 
 /-- `n < 1` test of stream/parallel: the block is empty, the file has been read completely. -/
-def isEnd (data : Bytes) : Bool :=
-  if Facts.C33.emptyStops then decide (data.length < 1) else decide (data.length < 0)
+def isEndN (n : Nat) : Bool :=
+  if Facts.C33.emptyStops then decide (n < 1) else decide (n < 0)
+
+def isEnd (data : Bytes) : Bool := isEndN data.length
 
 /-- `block.last()`: the returned chunk is smaller than the requested part. -/
-def isLast (data : Bytes) (ps : Nat) : Bool :=
-  if Facts.C33.lastIsShorter then decide (data.length < ps) else decide (data.length ≤ ps)
+def isLastN (n ps : Nat) : Bool :=
+  if Facts.C33.lastIsShorter then decide (n < ps) else decide (n ≤ ps)
+
+def isLast (data : Bytes) (ps : Nat) : Bool := isLastN data.length ps
 
 /-- offset of the `k`-th `nextPlain` call (`r.offset += int64(r.partSize)`). -/
 def offsetOf (k ps : Nat) : Nat := k * (if Facts.C33.allocStepIsPartSize then ps else ps + 1)
@@ -39,26 +43,46 @@ def offsetOf (k ps : Nat) : Nat := k * (if Facts.C33.allocStepIsPartSize then ps
 /-- One request of `reader.next`: `(offset, limit)`. -/
 abbrev Req := Nat × Nat
 
+/-- The storage-type tag of the block `reader.next` hands on for an answer `(data, t)`: the chunk is
+passed through as is, also when it is empty (`nextReturnsChunkAsIs`, regenerated). -/
+def blockTag (data : Bytes) (t : Nat) : Option Nat :=
+  if Facts.C33.nextReturnsChunkAsIs then some t else (if data.isEmpty then none else some t)
+
 structure SOut where
   /-- data handed to `io.Writer.Write`, in order -/
   writes : List Bytes := []
   reqs : List Req := []
+  /-- the reported file type: tag of the block that ended the download -/
+  typ : Option Nat := none
   /-- the download loop returned (as opposed to: fuel ran out) -/
   done : Bool := false
   deriving Repr, DecidableEq
 
-/-- `Downloader.stream`: blocks `k, k+1, …` until an empty or short one. -/
-def stream (srv : Server) (ps : Nat) : Nat → Nat → SOut
+/-- `Downloader.stream`: blocks `k, k+1, …` until an empty or short one; `tag off` = storage type the
+server attaches to the answer for `off`. -/
+def stream (srv : Server) (tag : Nat → Nat) (ps : Nat) : Nat → Nat → SOut
   | 0, _ => {}
   | fuel + 1, k =>
     let off := offsetOf k ps
     let data := srv off ps
-    if isEnd data then { writes := [], reqs := [(off, ps)], done := true }
+    if isEnd data then { writes := [], reqs := [(off, ps)], typ := blockTag data (tag off), done := true }
     else if isLast data ps then
-      { writes := if Facts.C33.writeBeforeLastCheck then [data] else [], reqs := [(off, ps)], done := true }
+      { writes := if Facts.C33.writeBeforeLastCheck then [data] else [], reqs := [(off, ps)],
+        typ := blockTag data (tag off), done := true }
     else
-      let o := stream srv ps fuel (k + 1)
-      { writes := data :: o.writes, reqs := (off, ps) :: o.reqs, done := o.done }
+      let o := stream srv tag ps fuel (k + 1)
+      { writes := data :: o.writes, reqs := (off, ps) :: o.reqs, typ := o.typ, done := o.done }
+
+/-- The requests of `stream` for a file of `size` bytes, computed on lengths only (used for files
+beyond 2 GiB, whose bytes are never materialised; `stream_reqs_eq` ties it to `stream`). -/
+def streamReqs (size ps : Nat) : Nat → Nat → List Req
+  | 0, _ => []
+  | fuel + 1, k =>
+    let off := offsetOf k ps
+    let n := min ps (size - off)
+    if isEndN n then [(off, ps)]
+    else if isLastN n ps then [(off, ps)]
+    else (off, ps) :: streamReqs size ps fuel (k + 1)
 
 /-! ## parallel -/
 
@@ -71,6 +95,10 @@ structure PState where
   writes : List (Nat × Bytes) := []
   /-- `ready` has been signalled -/
   stopped : Bool := false
+  /-- `typOnce` has fired -/
+  typSet : Bool := false
+  /-- the type stored by the first `stop` -/
+  typ : Option Nat := none
   deriving Repr, DecidableEq
 
 inductive PAct where
@@ -78,22 +106,28 @@ inductive PAct where
   | complete (i : Nat)
   deriving Repr, DecidableEq
 
-def pstep (srv : Server) (ps : Nat) (s : PState) : PAct → Option PState
+/-- `stop(t)`: `typOnce.Do(typ = t)`, `ready.Signal()`. -/
+def PState.stop (s : PState) (t : Option Nat) : PState :=
+  { s with stopped := true, typSet := true, typ := if s.typSet then s.typ else t }
+
+def pstep (srv : Server) (tag : Nat → Nat) (ps : Nat) (s : PState) : PAct → Option PState
   | .alloc => some { s with k := s.k + 1, held := s.k :: s.held }
   | .complete i =>
     if i ∈ s.held then
       let data := srv (offsetOf i ps) ps
+      let t := blockTag data (tag (offsetOf i ps))
       let held := s.held.erase i
       if isEnd data || (isLast data ps && !Facts.C33.writeBeforeLastCheck) then
-        some { s with held := held, stopped := true }
-      else some { s with held := held, writes := s.writes ++ [(offsetOf i ps, data)],
-                         stopped := s.stopped || isLast data ps }
+        some ({ s with held := held }.stop t)
+      else
+        let s' := { s with held := held, writes := s.writes ++ [(offsetOf i ps, data)] }
+        some (if isLast data ps then s'.stop t else s')
     else none
 
-def prun (srv : Server) (ps : Nat) : PState → List PAct → Option PState
+def prun (srv : Server) (tag : Nat → Nat) (ps : Nat) : PState → List PAct → Option PState
   | s, [] => some s
-  | s, a :: rest => match pstep srv ps s a with
-    | some s' => prun srv ps s' rest
+  | s, a :: rest => match pstep srv tag ps s a with
+    | some s' => prun srv tag ps s' rest
     | none => none
 
 /-- All workers have returned: nobody holds a block and stop was signalled (a worker leaves its loop
